@@ -11,9 +11,10 @@ import (
 
 // C11Case: a set of files (possibly none) by content.
 type C11Case struct {
-	Files  [][]byte `json:"files"`
-	Beyond int      `json:"beyond"`          // how many positions past the last file are probed
-	Order  []int    `json:"order,omitempty"` // further global positions (modulo the used range) looked up in this order
+	Files   [][]byte `json:"files"`
+	Beyond  int      `json:"beyond"`            // how many positions past the last file are probed
+	Order   []int    `json:"order,omitempty"`   // further global positions (modulo the used range) looked up in this order
+	ViaDisk bool     `json:"viaDisk,omitempty"` // the files are written to disk and loaded with text.ReadFile
 }
 
 func (c *C11Case) Describe() string { return fmt.Sprintf("files=%q beyond=%d", c.Files, c.Beyond) }
@@ -29,6 +30,7 @@ func genC11(t *rapid.T) interface{} {
 		}
 		c.Files = append(c.Files, b)
 	}
+	c.ViaDisk = rapid.IntRange(0, 7).Draw(t, "viaDisk") == 5
 	k := rapid.IntRange(0, 12).Draw(t, "lookups")
 	for i := 0; i < k; i++ {
 		c.Order = append(c.Order, rapid.IntRange(0, 60).Draw(t, "lookup"))
@@ -48,8 +50,18 @@ func checkC11(ci interface{}, st *Stats) (err error) {
 	fs := parsley.NewFileSet()
 	// half of the cases add the files through the constructor, half one by one
 	var pf []parsley.File
+	var names []string
 	for i, raw := range c.Files {
-		f := text.NewFile(fmt.Sprintf("file%d", i), raw)
+		name := fmt.Sprintf("file%d", i)
+		f := text.NewFile(name, raw)
+		if c.ViaDisk {
+			df, dn, err := fileViaDisk(raw)
+			if err != nil {
+				return Discard{"cannot write a temporary file"}
+			}
+			f, name = df, dn
+		}
+		names = append(names, name)
 		files = append(files, f)
 		norm = append(norm, normCRLF(raw))
 		pf = append(pf, f)
@@ -88,6 +100,13 @@ func checkC11(ci interface{}, st *Stats) (err error) {
 	}
 	seen := map[int]string{}
 	emptyFile, lineEdge := false, false
+	// results are also kept and read only after all lookups were made: a translation that was
+	// handed out must not change when another position is translated
+	type kept struct {
+		pos  parsley.Position
+		want string
+	}
+	var keptAll []kept
 	for i := range files {
 		if files[i].Len() != len(norm[i]) {
 			return fmt.Errorf("file %d: Len() = %d, normalised content has %d bytes", i, files[i].Len(), len(norm[i]))
@@ -97,11 +116,13 @@ func checkC11(ci interface{}, st *Stats) (err error) {
 		}
 		for o := 0; o <= len(norm[i]); o++ {
 			l, col := lineCol(string(norm[i]), o)
-			want := fmt.Sprintf("file%d:%d:%d", i, l, col)
+			want := fmt.Sprintf("%s:%d:%d", names[i], l, col)
 			gp := bases[i] + o
-			if got := fs.Position(parsley.Pos(gp)).String(); got != want {
+			p1 := fs.Position(parsley.Pos(gp))
+			if got := p1.String(); got != want {
 				return fmt.Errorf("file %d offset %d (global position %d) renders as %s, want %s", i, o, gp, got, want)
 			}
+			keptAll = append(keptAll, kept{p1, want}, kept{files[i].Position(o), want})
 			if files[i].Pos(o) != parsley.Pos(gp) {
 				return fmt.Errorf("file %d: Pos(%d) = %d, want %d", i, o, files[i].Pos(o), gp)
 			}
@@ -125,6 +146,11 @@ func checkC11(ci interface{}, st *Stats) (err error) {
 			return fmt.Errorf("file %d: Position(len+1) = %v, want the nil position", i, got)
 		}
 	}
+	for _, k := range keptAll {
+		if got := k.pos.String(); got != k.want {
+			return fmt.Errorf("a position that rendered as %s reads %s after further lookups were made", k.want, got)
+		}
+	}
 	// lookups in arbitrary order (a table built lazily or a remembered last line must not matter)
 	if end > 1 {
 		for _, o := range c.Order {
@@ -133,7 +159,7 @@ func checkC11(ci interface{}, st *Stats) (err error) {
 			for i := range files {
 				if gp >= bases[i] && gp <= bases[i]+len(norm[i]) {
 					l, col := lineCol(string(norm[i]), gp-bases[i])
-					want = fmt.Sprintf("file%d:%d:%d", i, l, col)
+					want = fmt.Sprintf("%s:%d:%d", names[i], l, col)
 					if got := files[i].Position(gp - bases[i]).String(); got != want {
 						return fmt.Errorf("file %d: Position(%d) looked up out of order = %s, want %s", i, gp-bases[i], got, want)
 					}
@@ -148,13 +174,16 @@ func checkC11(ci interface{}, st *Stats) (err error) {
 	for i := range files {
 		pos := parsley.Pos(bases[i] + len(norm[i])/2)
 		l, col := lineCol(string(norm[i]), len(norm[i])/2)
-		want := fmt.Sprintf("boom at file%d:%d:%d", i, l, col)
+		want := fmt.Sprintf("boom at %s:%d:%d", names[i], l, col)
 		if got := fs.ErrorWithPosition(parsley.NewErrorf(pos, "boom")).Error(); got != want {
 			return fmt.Errorf("ErrorWithPosition at %d = %q, want %q", pos, got, want)
 		}
 	}
 	if got := fs.ErrorWithPosition(parsley.NewErrorf(parsley.Pos(end), "boom")).Error(); got != "boom" {
 		return fmt.Errorf("ErrorWithPosition past the last file = %q, want the bare message", got)
+	}
+	if c.ViaDisk {
+		st.Class("files loaded with text.ReadFile")
 	}
 	switch len(files) {
 	case 0:
